@@ -170,6 +170,15 @@ def g_default_options(R, tier):
                 unpk = [k for k, a in v["calls"] if k in ("ast.unparse", "expr_unparse")]
                 want = ["expr_unparse"] if unp == "oneliner" else ["ast.unparse"]
                 R.check(f"{nm}/unparser-choice-follows-the-option", unpk == want, f"{unpk} expected {want}")
+                # what is returned: the unparser's text itself; on the ast.unparse branch with the
+                # line feeds deleted and NOTHING else done to it (blanks inside literals matter)
+                from olvc.tmpl import Fn, Tmpl, as_tmpl
+                if unp == "oneliner":
+                    okr = isinstance(v["res"], Hole) and v["res"].tag == "unparsed-ol"
+                else:
+                    okr = repr(as_tmpl(v["res"])) == repr(Tmpl([Fn("replace", Hole("unparsed", "str"), ("\n", ""))]))
+                R.check(f"{nm}/returns-the-unparser-s-text-unchanged-except-for-line-feeds", okr, repr(v["res"]),
+                        replay=dict(kind="src-text", src="s = 'a    b'\nt = b'x  y'\nu = f'{s}   {t!r}'\nr = (s, t, u, len(s))\n"))
 
 
 def g_ordering(R, tier):
@@ -381,6 +390,11 @@ def replay_history_pairs(rp=None):
     return dict(reproduced=False, pairs=len(HISTORY_PAIRS))
 
 
+def replay_src_text(rp):
+    from suites import replay_util as RU
+    return RU.replay_source(rp["src"], "same-globals")
+
+
 def replay_frame(rp):
     """a write to an object that outlives the call shows up as a dependence on the history of
     the process: try the stored two-conversion histories"""
@@ -420,7 +434,7 @@ def replay_history(rp=None):
     return dict(reproduced=not all(ok), same_after_option_change=ok[0], same_after_other_conversion=ok[1], program=code)
 
 
-REPLAY = {"history-pairs": replay_history_pairs, "history": replay_history, "leak": replay_leak, "illegal": replay_illegal, "hashseed": replay_hashseed, "rng": replay_rng, "frame": replay_frame}
+REPLAY = {"src-text": replay_src_text, "history-pairs": replay_history_pairs, "history": replay_history, "leak": replay_leak, "illegal": replay_illegal, "hashseed": replay_hashseed, "rng": replay_rng, "frame": replay_frame}
 
 from suites import thorough as _th
 GROUPS["thorough:history"] = _th.bounded_from_replay("bounded/api-history", replay_history)
